@@ -23,5 +23,5 @@ SPEC = {
 MANIFEST = {
     "technique": "Coq proof over a step-list model of the badger backend (operations as lists of atomic durable steps, run_until/reopen/retry; crash safety of Commit and Finalize for every state reachable by a safe history, refutation witness for Prune's ordering and proof for the repaired retry) with fault injection at every enumerated crash point of the real node database (child process killed between durable writes, reopen, full read-back, retry, comparison with an uninterrupted twin run and with the model)",
     "level_text": "Theorems in coq/Props/C07.v: for every state reachable by an in-domain safe history and every crash strictly inside Commit or Finalize, every previously listed/finalized root stays readable and the retry reaches a state observationally equal to the uninterrupted one; the faithful port of Prune is refuted (retry fails with root-not-found forever) and the repaired retry (skip lone roots whose root-node key is gone) is proved safe. The step lists are tied to the code by killing the real database at every crash point the hook enumerates and comparing reopen/retry observations with the model (badger) and with an uninterrupted twin (both backends).",
-    "level_note": "Trusted: Coq kernel; harness + verifhook crash points; atomicity of a batch flush / metadata commit; pathbadger by test only; multipart restore covered by the harness oracle only (no Coq model).",
+    "level_note": "Trusted: Coq kernel; harness + verifhook crash points; atomicity of a batch flush / metadata commit; pathbadger by test only; badger multipart restore modelled in NodeDB/Multipart.v and compared case by case; pathbadger restore by the harness oracle only.",
 }
